@@ -526,6 +526,8 @@ def parse_bounds_check(fn):
             info["lines"].setdefault(st.tag, s.lineno)
             prog.append(("repair", name, guard, assigns))
             continue
+        if is_logger_stmt(s) or isinstance(s, ast.Pass):
+            continue
         if isinstance(s, ast.Return):
             v = s.value
             if not (isinstance(v, ast.Tuple) and len(v.elts) == 5 and all(isinstance(e, ast.Name) and e.id in vec for e in v.elts)):
